@@ -125,7 +125,7 @@ def arithmetic_rules(ctx, pid, rel, unit_bits):
         ps = fd.decl.type.args.params
         return lib.type_of_decl(ps[i].type) if i < len(ps) else None
 
-    def run_pair(kind, wfn, rfn, value, extra, lead_bits):
+    def run_pair(kind, wfn, rfn, value, extra, lead_bits, rextra=None):
         """-> (written bits as a '0'/'1' string after the lead, value read back, bits consumed) ; lead_bits: 1-bits written first
         (uper: to leave octet alignment)"""
         lib.steps = 0
@@ -147,7 +147,7 @@ def arithmetic_rules(ctx, pid, rel, unit_bits):
         lib.call('decoder_init', [d, Ptr(dm, 0), Val(len(dm), (64, False))])
         for _ in range(lead_bits):
             lib.call('decoder_read_bit', [d])
-        got = lib.call(rfn, [d] + [Val(x, (8, False)) for x in extra])
+        got = lib.call(rfn, [d] + [Val(x, (8, False)) for x in (extra if rextra is None else rextra)])
         used = d['pos'].v * (1 if bit_unit else 8)
         return bits[lead_bits:], got.v, used - lead_bits
 
@@ -216,6 +216,39 @@ def arithmetic_rules(ctx, pid, rel, unit_bits):
                 n_ok += 1
             else:
                 groups.setdefault((wfn if bits != want else rfn), ('%s%s' % (label, (' at bit offset %d' % lead) if lead else ''), msg))
+    # CHOICE tags (X.696 8.7): written octet by octet with encoder_append_uint(<tag>, <number of octets>), read with decoder_read_tag: every valid tag -- one octet
+    # for numbers below 63, else 0x3f | class followed by the number in base 128 with continuation bits, any group but the first may be zero -- is read back whole
+    if 'decoder_read_tag' in lib.funcs and 'encoder_append_uint' in lib.funcs and not bit_unit:
+        for cls_ in (0, 1, 2, 3):
+            for num in (0, 1, 62, 63, 64, 127, 128, 129, 255, 16383, 16384, 16385, 16384 + 127, 32768, 32768 + 5, 49152, 2 * 16384 + 128, 2097151):
+                if num < 63:
+                    octs = [(cls_ << 6) | num]
+                else:
+                    groups_ = []
+                    n_ = num
+                    while True:
+                        groups_.insert(0, n_ & 0x7f)
+                        n_ >>= 7
+                        if not n_:
+                            break
+                    octs = [(cls_ << 6) | 0x3f] + [g_ | 0x80 for g_ in groups_[:-1]] + [groups_[-1]]
+                if len(octs) > 4:
+                    continue
+                tv = int.from_bytes(bytes(octs), 'big')
+                cases_tag = ('decoder_read_tag(class %d, number %d = %s)' % (cls_, num, bytes(octs).hex()), tv, len(octs))
+                try:
+                    bits, got, used = run_pair('tag', 'encoder_append_uint', 'decoder_read_tag', tv, [len(octs)], 0, rextra=[])
+                except Undecided as e:
+                    if 'error' in str(e) or 'abort' in str(e):
+                        groups.setdefault('decoder_read_tag', (cases_tag[0], 'the valid tag is rejected (%s)' % e))
+                    else:
+                        n_und += 1
+                        und = und or '%s: %s' % (cases_tag[0], e)
+                    continue
+                if got != tv or used != 8 * len(octs):
+                    groups.setdefault('decoder_read_tag', (cases_tag[0], 'the tag octets %s are read back as %#x (%d bits consumed)' % (bytes(octs).hex(), got, used)))
+                else:
+                    n_ok += 1
     ctx.instance(R10, '%s: %d (helper, value, offset) cases evaluated, %d undecided' % (rel, n_ok, n_und), 'VIOLATION' if groups else ('ok' if n_ok else 'undecided'), und or '',
                  nontrivial=n_ok > 0, file=rel)
     for fn, (label, msg) in sorted(groups.items()):
